@@ -154,6 +154,8 @@ pub struct Bed {
     pub epmd_port: u16,
     pub epmd_names: Arc<Mutex<HashMap<String, u16>>>,
     pub epmd_creation: Arc<Mutex<u32>>,
+    /// answer registrations with the older ALIVE2_RESP (tag 121, 16-bit creation) instead of ALIVE2_X_RESP
+    pub epmd_legacy: Arc<Mutex<bool>>,
 }
 
 impl Bed {
@@ -162,11 +164,13 @@ impl Bed {
         let port = l.local_addr().map_err(|e| e.to_string())?.port();
         let names: Arc<Mutex<HashMap<String, u16>>> = Arc::new(Mutex::new(HashMap::new()));
         let creation = Arc::new(Mutex::new(0x0102_0304u32));
+        let legacy = Arc::new(Mutex::new(false));
+        let l2 = legacy.clone();
         let (n2, c2) = (names.clone(), creation.clone());
         tokio::spawn(async move {
             loop {
                 let Ok((mut s, _)) = l.accept().await else { break };
-                let (n3, c3) = (n2.clone(), c2.clone());
+                let (n3, c3, l3) = (n2.clone(), c2.clone(), l2.clone());
                 tokio::spawn(async move {
                     let _ = s.set_nodelay(true);
                     // every harness socket is closed with RST (linger 0) *after* the other side is done
@@ -181,8 +185,12 @@ impl Bed {
                         120 => {
                             // ALIVE2_REQ -> ALIVE2_X_RESP Result(0) Creation(4)
                             let c = *c3.lock().unwrap();
-                            let mut resp = vec![118u8, 0];
-                            resp.extend_from_slice(&c.to_be_bytes());
+                            let mut resp = if *l3.lock().unwrap() { vec![121u8, 0] } else { vec![118u8, 0] };
+                            if resp[0] == 121 {
+                                resp.extend_from_slice(&(c as u16).to_be_bytes());
+                            } else {
+                                resp.extend_from_slice(&c.to_be_bytes());
+                            }
                             let _ = s.write_all(&resp).await;
                             // keep the registration connection open until the client drops it
                             let mut b = [0u8; 1];
@@ -215,7 +223,7 @@ impl Bed {
                 });
             }
         });
-        Ok(Bed { epmd_port: port, epmd_names: names, epmd_creation: creation })
+        Ok(Bed { epmd_port: port, epmd_names: names, epmd_creation: creation, epmd_legacy: legacy })
     }
 
     /// Listen for the library's distribution connection under `short_name` (the part before '@').
